@@ -200,6 +200,16 @@ Proof.
   rewrite live_bytes5_tot. unfold remaining5. lia.
 Qed.
 
+(* fragment_size covers every block on a free list: `fragment_size -= size` on a pop never underflows *)
+Lemma five_level_frag_covers_proof c ops b o : new_ok5 Fixed c = true ->
+  In (b, o) (fl5 (p5 (final5 Fixed c ops))) -> class5 c b <= frag5 (p5 (final5 Fixed c ops)).
+Proof.
+  intros Hnew Hin. pose proof (final5_inv c ops Hnew) as [_ _ _ _ _ _ _ _ Hfrag].
+  assert (H : In (o, class5 c b) (ivf c (fl5 (p5 (final5 Fixed c ops))))).
+  { unfold ivf. apply in_map_iff. exists (b, o). auto. }
+  pose proof (tot_ge_in _ _ _ H). lia.
+Qed.
+
 (* ---------- the 4-byte free-list link ---------- *)
 Lemma pow2_div4 al o : 4 <= al -> (exists k, al = 2 ^ k) -> o mod al = 0 -> o mod 4 = 0.
 Proof.
